@@ -373,3 +373,74 @@ Proof.
     try (intros E; inversion E; subst; right; exact R').
   destruct ((e' <? (if (b' <? 0) && (e' =? 0) then 0 else b')) || (blen buf <? e')); intros E; inversion E; subst; right; exact R'.
 Qed.
+
+(* ------------------------------------------------------------------------------------------ *)
+(* the fuel of the address loop is never exhausted: every round consumes at least the separator *)
+
+Lemma sfx_len s r : sfx s r -> (length r <= length s)%nat.
+Proof. intros [p ->]. rewrite app_length. lia. Qed.
+Lemma rrl_len : forall n s d, (length s <= n)%nat -> (length (snd (re_read_loop d s)) <= length s)%nat.
+Proof.
+  induction n as [|n IH]; intros s d L.
+  - destruct s; [cbn; lia | cbn in L; lia].
+  - destruct s as [|c s1]; [cbn; lia|]. cbn [re_read_loop].
+    destruct (c =? d)%N; [cbn; lia|].
+    destruct (c =? 92)%N.
+    + destruct s1 as [|x s2].
+      * cbn. lia.
+      * specialize (IH s2 d). cbn in L. destruct (re_read_loop d s2) as [t r]. cbn [snd] in IH.
+        destruct (x =? d)%N; cbn [snd length]; lia.
+    + specialize (IH s1 d). cbn in L. destruct (re_read_loop d s1) as [t r]. cbn [snd length] in *. lia.
+Qed.
+Lemma fin_len (n : Z) (rest : bytes) (k : kst) x y z :
+  (let (n', rest') := offsets (S (length rest)) rest n in (n', rest', k)) = (x, y, z) -> (length y <= length rest)%nat.
+Proof. intros E. apply fin_sfx in E. destruct E as [_ E]. apply sfx_len, E. Qed.
+Lemma lineno_len valid find buf k s n rest k' :
+  a_lineno valid find buf k s = (n, rest, k') -> (length rest <= length s)%nat.
+Proof.
+  unfold a_lineno. destruct s as [|c r]. { intros E. apply fin_len in E. exact E. }
+  destruct (c =? 46)%N. { intros E. apply fin_len in E. cbn. lia. }
+  destruct (c =? 36)%N. { intros E. apply fin_len in E. cbn. lia. }
+  destruct (c =? 39)%N. { intros E. inversion E; subst. cbn. lia. }
+  destruct ((c =? 47) || (c =? 63))%N.
+  - unfold a_search. pose proof (rrl_len (length r) r c (le_n _)) as R.
+    destruct (re_read_loop c r) as [kw rest0]. cbn [snd] in R.
+    set (k1 := match kw with [] => k | _ :: _ => kwdset k kw (if (c =? 47)%N then 1 else -1) end).
+    destruct (k_dir k1 =? 0). { cbn. intros E. inversion E; subst. cbn. lia. }
+    destruct (negb (valid (k_kwd k1))). { cbn. intros E. inversion E; subst. cbn. lia. }
+    destruct (search_rows find buf (S (length buf)) (k_kwd k1) (k_row k1 + k_dir k1) (k_dir k1) <? 0).
+    + intros E. inversion E; subst. cbn. lia.
+    + intros E. apply fin_len in E. cbn. lia.
+  - destruct (is_dig c).
+    + intros E. apply fin_len in E. pose proof (sfx_len _ _ (digits_sfx (c :: r) 0)). lia.
+    + intros E. apply fin_len in E. exact E.
+Qed.
+Lemma loop_fuel valid find buf : forall fuel s first b e k,
+  (length s < fuel)%nat -> a_loop valid find buf fuel s first b e k <> None.
+Proof.
+  induction fuel as [|f IH]; intros s first b e k L; [lia|]. cbn [a_loop].
+  destruct s as [|c s']; [discriminate|].
+  destruct (a_lineno valid find buf k (c :: s')) as [[n rest] k1] eqn:E. apply lineno_len in E.
+  destruct (n + 1 <? 0); [discriminate|].
+  pose proof (sfx_len _ _ (skip_to_sep_sfx rest)) as L2.
+  destruct (skip_to_sep rest) as [|c2 rest2]; [discriminate|].
+  apply IH. cbn [length] in *. lia.
+Qed.
+Theorem region_total valid find buf loc k : a_region valid find buf loc k <> None.
+Proof.
+  unfold a_region. destruct (beqb loc [37%N]); [discriminate|]. destruct loc as [|c s]; [discriminate|].
+  pose proof (loop_fuel valid find buf (S (length (c :: s))) (c :: s) true 0 0 k (Nat.lt_succ_diag_r _)) as F.
+  destruct (a_loop valid find buf (S (length (c :: s))) (c :: s) true 0 0 k) as [[[[bad b] e] k1]|]; [|congruence].
+  destruct bad; [discriminate|].
+  destruct ((if (b <? 0) && (e =? 0) then 0 else b) <? 0); destruct (blen buf <=? (if (b <? 0) && (e =? 0) then 0 else b)); cbn [orb]; try discriminate.
+  destruct ((e <? (if (b <? 0) && (e =? 0) then 0 else b)) || (blen buf <? e)); discriminate.
+Qed.
+Theorem ec_subst_total valid find buf loc arg k : ec_subst valid find buf loc arg k <> None.
+Proof.
+  unfold ec_subst, subst_head. pose proof (region_total valid find buf loc k) as R.
+  destruct (a_region valid find buf loc k) as [[[[bad b] e] k1]|]; [|congruence].
+  destruct bad; [discriminate|].
+  destruct (subst_args arg) as [[pat rep] flags].
+  match goal with |- context [if ?c then Some (?a, None) else _] => destruct c end; [discriminate|].
+  match goal with |- context [if valid ?p then _ else _] => destruct (valid p) end; discriminate.
+Qed.
